@@ -892,11 +892,14 @@ def fixed_cases(ctx, F_classes):
 BIG_OFFSETS = [255, 256, 257, 258, 300, 1000]
 
 
-def hub_shape(rng, kind, n, D, sparse=30):
+def hub_shape(rng, kind, n, D, sparse=30, flip=None):
     """edges of a graph with a hub of degree D on either side, listed in random (non sorted) order -- the order in which
     build_group inserts them before the group is created.  Returns (shape, wildcard patterns through the hubs)"""
     verts = list(range(1, n + 1))
     hu, hv = rng.choice([1, 2, n // 2, n]), rng.choice([1, 3, n // 2 + 1, n])
+    if flip is not None:        # hubs at either end of the numbering, on either side
+        low, high = rng.choice([1, 2, 3]), rng.choice([n - 2, n - 1, n])
+        hu, hv = (low, high) if flip else (high, low)
     if kind == 'graph':
         edges = {(min(hu, w), max(hu, w)) for w in rng.sample([x for x in verts if x != hu], D)}
         while len(edges) < D + sparse:
@@ -945,9 +948,9 @@ def large_group_cases(rng, tier):
         out.append((dict(kind='umap', n=n, m=m), off(), [[1, None], [None, m], [None, 128], [None, 129], [n, None], [None, m + 1]]))
     out.append((dict(kind='umap', n=2, m=129), 0, [[2, None], [None, 129]]))
     for rep in range(1 if quick else 4):
-        for kind in ('bip', 'sparse', 'graph', 'di', 'di'):
+        for ki, kind in enumerate(('bip', 'sparse', 'graph', 'di', 'di')):
             n = rng.choice([135, 150, 200, 300])
-            sh, pats = hub_shape(rng, kind, n, rng.choice([129, 130]))
+            sh, pats = hub_shape(rng, kind, n, rng.choice([129, 130]), flip=(ki + rep) % 2 == 0)
             out.append((sh, off() if rng.random() < 0.8 else 0, pats))
         sh, pats = hub_shape(rng, rng.choice(['bip', 'sparse', 'graph', 'di']), rng.choice([20, 70]), 17, sparse=5)
         out.append((sh, off(), pats))
@@ -973,13 +976,13 @@ def large_histories(rng, tier):
          single('Z'), dict(op='new', shape=dict(kind='block', ranges=[2, 129]), pieces=['b_{', ',', '}']), single('W')],
         [dict(op='raise', k=255), single('A'), single('B'), single('C'), dict(op='clause', lits=[-256, 257, 258], check=True)],
         [dict(op='raise', k=257), single('X')],
-        [dict(op='new', shape=dict(kind='umap', n=1, m=129), pieces=['f(', ')=', '']), single('Y'), dict(op='clause', lits=[130, -1], check=True),
+        [dict(op='new', shape=dict(kind='umap', n=1, m=65), pieces=['f(', ')=', '']), single('Y'), dict(op='clause', lits=[66, -1], check=True),
          dict(op='raise', k=300), single('Z')],
         [dict(op='clause', lits=[300, -2], check=False), single('X'), dict(op='new', shape=dict(kind='block', ranges=[257]), pieces=['y_', ''])],
         [dict(op='new', shape=dict(kind='block', ranges=[256]), pieces=['y_', '']), single('X'), single('Y'), dict(op='raise', k=513), single('Z')],
     ]
     for _ in range(2 if tier == 'quick' else 12):
-        sh, _p = hub_shape(rng, rng.choice(['bip', 'sparse', 'graph', 'di']), rng.choice([135, 150]), 129, sparse=10)
+        sh, _p = hub_shape(rng, rng.choice(['bip', 'sparse', 'graph']), rng.choice([135, 150]), 129, sparse=10)   # (di: the model's labels need ~25 s)
         hs.append([dict(op='raise', k=rng.choice([0, 255, 256, 257])), dict(op='new', shape=sh, pieces=['e(', ',', ')']), single('S'),
                    dict(op='clause', lits=[rng.choice([1, 256, 257, 300]), -rng.choice([129, 258])], check=True), single('T')])
     return hs
